@@ -123,6 +123,7 @@ class JavaBaseField(JavaBase):
 
     @computed_field
     @cached_property
+    @validate(keywords)
     def name(self) -> str: return self.decl.name.convert(self.config.identifier.field)
 
     @cached_property
